@@ -6,7 +6,7 @@ import common, gen
 class Case:
     """One program.  Either `stmts` (a syntax tree: rendered to text for the binary, serialised for the model)
     or `src` (source bytes: the same bytes go to the binary and to the model's whole pipeline, lexer included)."""
-    __slots__ = ("name", "stmts", "files", "text", "impl", "model", "meta", "gen", "src")
+    __slots__ = ("name", "stmts", "files", "text", "impl", "model", "meta", "gen", "src", "_wd")
 
     def __init__(self):
         self.src = None
@@ -45,10 +45,21 @@ def run_both(ctx, tag, cases, keep=False, model_verbose=False):
             case_text.append("\n".join(lines) + "\n")
         else:
             case_text.append(gen.ser_case(c.name, c.stmts, mfiles))
-    model = common.run_model(tag, "".join(case_text), verbose=model_verbose)
+    # (always verbose: the trace of library calls and the partial pcap of a failing run are part of what is recorded)
+    model = common.run_model(tag, "".join(case_text), verbose=True)
     for c in cases:
         c.impl = impl[c.name]
         c.model = common.model_result(model.get(c.name, ["MISSING"]))
+        c._wd = wd
+    if ctx is not None:
+        # T3: which library entry points the compared runs went through (the model's own call trace)
+        keys = set(ctx.dist.get("library_keys_exercised_by_the_model", []))
+        for c in cases:
+            keys.update(k for k in (c.model.get("trace") or []) if k)
+        ctx.dist["library_keys_exercised_by_the_model"] = sorted(keys)
+        ctx.dist["library_keys_exercised_count"] = len(keys)
+    if ctx is not None and not os.environ.get("VERIF_NO_RECHECK"):
+        common.coq_recheck(ctx, tag, cases)
     return wd
 
 
